@@ -1,7 +1,9 @@
 mod c01;
 mod c02;
+mod c03;
 mod c11;
 mod codec;
+mod part;
 mod cont;
 mod util;
 
@@ -30,9 +32,29 @@ fn main() {
             c11::run(&mut rep, &mut rng, thorough);
             rep
         }
+        "C03" => {
+            let mut rep = Report::new("C03", "alternating directions: our writers (.xz, .lz, .lzma, raw LZMA2; random in-range options, filters, checks, partitions) decoded by liblzma, and liblzma's encoders (presets 0-9/extreme, custom lc/lp/pb/dict/nice/mf/mode/depth, filter chains, all checks) decoded by our readers (and by the Lean reader models); non-trivial = non-empty data; distinct = distinct (direction, format, data, option class)");
+            c03::run(&mut rep, &mut rng, thorough);
+            rep
+        }
         "C04" => {
             let mut rep = Report::new("C04", "valid XZ/LZIP files made by the crate's writers x corruptions: every single-bit flip (exhaustive on small files), substitutions, deletions, insertions, duplications, swaps, truncations, zeroing; plus non-format inputs. non-trivial = file with data; distinct = distinct file");
             cont::run_c04(&mut rep, &mut rng, thorough);
+            rep
+        }
+        "C07" => {
+            let mut rep = Report::new("C07", "every writer (LZMA x4 variants, LZMA2 with/without chunk size, XZ with filters and block sizes, LZIP with member sizes, Delta) with random partitions incl. empty writes and flushes, decoded by the matching reader with buffer schedules incl. 0- and 1-byte buffers; BCJ readers with all schedules; non-trivial = non-empty data; distinct = (writer, data, size, partition style, read style)");
+            part::run_c07(&mut rep, &mut rng, thorough);
+            rep
+        }
+        "C13" => {
+            let mut rep = Report::new("C13", "each case: two identical runs (allocator state perturbed in between) + runs with random partitions must give byte-identical output (LZMA, LZMA2 and XZ without chunk/block size, LZIP with member size); non-trivial = non-empty data; distinct = (writer, data, size, option class)");
+            part::run_c13(&mut rep, &mut rng, thorough);
+            rep
+        }
+        "C18" => {
+            let mut rep = Report::new("C18", "XZ block sizes (from the index), LZIP member sizes (from the trailers), LZMA2 MT unit sizes (from the chunk headers) against the configured limit raised to the dictionary size, for one huge write and random partitions; member_count/chunk_count of the MT readers; .lzma expected size equal/smaller/larger; non-trivial = non-empty data");
+            part::run_c18(&mut rep, &mut rng, thorough);
             rep
         }
         "C12" => {
